@@ -377,6 +377,10 @@ def main(tier):
         pass
     rule_c(prog, chk)
     rule_d(prog, chk)
+    # C20e: the polygon (vertices AND vertical limits) survives a copy: copy constructor and operator= of the polygon classes agree
+    import copyrule
+    ncp = copyrule.copy_agreement(prog, chk, "C20e", classes=[c for c in prog.classes if c in ("PolyElem", "Polygons")])
+    chk.floor("C20e", ncp, 3)
     chk.extra["exhaustive"] = True
     chk.extra["checker_cmd"] = "./check C20 --tier " + tier
     chk.extra["trusted_base"] = ["clang 14 front end (AST)", "gsa-extract", "rules/e6_abseval.py (rational interpreter)",
